@@ -90,10 +90,15 @@ func mergeHist(j *job, s string) {
 	}
 }
 
+// isMulti: a job with many cases, reported as a histogram line
+func isMulti(text string) bool {
+	return strings.HasPrefix(text, "batch ") || strings.HasPrefix(text, "allfmt ") || strings.HasPrefix(text, "fields ")
+}
+
 func reqFormatOf(text string) string {
 	ws := strings.Fields(text)
 	switch {
-	case len(ws) >= 3 && ws[0] == "batch":
+	case len(ws) >= 3 && (ws[0] == "batch" || ws[0] == "fields"):
 		return ws[2]
 	case len(ws) >= 4 && (ws[0] == "d" || ws[0] == "i"):
 		return ws[3]
@@ -206,7 +211,7 @@ func runOne(slot int, wp **wproc, j *job, workDir string) {
 		*wp = nil
 		j.restarts++
 		if aborted {
-			if j.aborts >= maxAbortsPerJob && strings.HasPrefix(j.text, "batch ") {
+			if j.aborts >= maxAbortsPerJob && isMulti(j.text) {
 				// a base input that exhausts time/memory does so for most of its family: give the job up
 				j.lines = append(j.lines, [2]string{"skip " + j.text + " from " + strconv.Itoa(from), "resource:job-abandoned"})
 				return
@@ -224,7 +229,7 @@ func runOne(slot int, wp **wproc, j *job, workDir string) {
 		cls := classifyCrash(stderr, werr, reqFormatOf(j.text))
 		j.lines = append(j.lines, [2]string{curOp, cls})
 		from = cur + 1
-		if !strings.HasPrefix(j.text, "batch ") {
+		if !isMulti(j.text) {
 			return
 		}
 		if strings.HasPrefix(cls, "resource:") {
